@@ -16,6 +16,11 @@ import (
 
 func init() {
 	props["C11"] = runC11
+	replayers["C11/routes"] = func(v rt.Violation) string {
+		c := rt.ReplayCtx("C11")
+		c11Routes(c)
+		return c.Report()
+	}
 	replayers["C11/roundtrip"] = func(v rt.Violation) string {
 		c := rt.ReplayCtx("C11")
 		c.Serial("replay", func(w *rt.W) { c11RoundTrip(w, rt.ArgInt(v, "y"), int(rt.ArgInt(v, "m")), int(rt.ArgInt(v, "d"))) })
@@ -259,6 +264,9 @@ func runC11(c *rt.Ctx) {
 	})
 	c.Require("year-aliasing-history", 100)
 
+	c11Routes(c)
+	c.Require("date-by-every-route", 11)
+
 	nSeeded := c.Pick(1000000, 40000000)
 	c.Parallel("far-years", 0, func(w *rt.W) {
 		for i := 0; i < nSeeded/w.NShards; i++ {
@@ -422,4 +430,37 @@ func runC11(c *rt.Ctx) {
 	c.Require("version-byte-sweep", 1024)
 	c.Require("length-sweep", 34)
 	c.Require("random-payload", 900000)
+}
+
+// c11Routes: see the comment inside.
+func c11Routes(c *rt.Ctx) {
+	// the same date reached by different routes (variables that held something else before, FromTime, Scan, Add ...):
+	// one encoding, and the decoded value equal to every one of them
+	c.Parallel("dates-by-every-route", 0, func(w *rt.W) {
+		ymds := [][3]int{{1, 1, 1}, {2024, 2, 29}, {1965, 3, 4}, {1969, 12, 31}, {1970, 1, 1}, {0, 1, 1}, {-5, 7, 9}, {9999, 12, 31}, {12345, 6, 7}, {1900, 3, 1}, {2000, 1, 1}}
+		for i := w.Shard; i < len(ymds); i += w.NShards {
+			y, m, d := ymds[i][0], ymds[i][1], ymds[i][2]
+			want := c11Encode(int64(y), m, d)
+			rs := dateRoutes(y, time.Month(m), d)
+			for ri, r := range rs {
+				b, err := r.MarshalBinary()
+				var back date.Date
+				err2 := back.UnmarshalBinary(want)
+				w.Eval(2)
+				args := rt.Args("y", y, "m", m, "d", d, "route", ri)
+				if err != nil || !bytes.Equal(b, want) {
+					w.Fail("layout-by-route", "routes", args, fmt.Sprintf("%x err=%v", b, err), fmt.Sprintf("%x", want), "a date that reached its value by another route marshals differently")
+				}
+				if err2 != nil || !back.Equal(r) || !r.Equal(back) || back != rs[0] && !back.Equal(rs[0]) {
+					w.Fail("roundtrip-not-equal-by-route", "routes", args, fmt.Sprint(back, " err=", err2), r.String(), "the decoded date is not equal to the date it was marshalled from (which reached its value by another route)")
+				}
+				for rj, q := range rs {
+					if !r.Equal(q) || r.Before(q) || r.After(q) {
+						w.Fail("same-date-by-two-routes-not-equal", "routes", rt.Args("y", y, "m", m, "d", d, "route", ri, "other_route", rj), fmt.Sprint(r.Equal(q), r.Before(q), r.After(q)), "true false false", "two values of the same date compare unequal")
+					}
+				}
+			}
+			w.ClassN("date-by-every-route", 1)
+		}
+	})
 }
